@@ -9,6 +9,7 @@ The i-th request received (on whichever listener) is answered with steps[i]; aft
 """
 import base64
 import functools
+import json
 import http.cookiejar
 import io
 import re
@@ -239,7 +240,26 @@ def _Rec(parent_url, url_info):
     return rec
 
 
-def build_client(net, maxred, proxy=False, user_agent='wpull-verif'):
+# request factories as the APPLICATION builds them from command-line options (ClientSetupTask._build_request_factory)
+OPTSETS = [[], ['--header', 'X-Extra: 1'], ['--header', 'X-Extra: 1', '--header', 'Accept-Language: en', '--no-cache'],
+           ['--http-compression']]
+_FACTORIES = {}
+
+
+def app_request_factory(optset, user_agent):
+    key = (optset, user_agent)
+    if key not in _FACTORIES:
+        import types
+        from wpull.application.options import AppArgumentParser
+        from wpull.application.builder import Builder
+        from wpull.application.tasks.download import ClientSetupTask
+        args = AppArgumentParser().parse_args(['http://h1.test/', '-U', user_agent] + OPTSETS[optset])
+        session = types.SimpleNamespace(args=args, factory=Builder(args).factory, default_user_agent=user_agent)
+        _FACTORIES[key] = ClientSetupTask._build_request_factory(session)
+    return _FACTORIES[key]
+
+
+def build_client(net, maxred, proxy=False, user_agent='wpull-verif', optset=None):
     kw = dict(resolver=net.resolver(), connection_factory=net.connection_factory,
               ssl_connection_factory=net.connection_factory)
     if proxy:
@@ -258,6 +278,8 @@ def build_client(net, maxred, proxy=False, user_agent='wpull-verif'):
         r.fields['User-Agent'] = user_agent
         return r
 
+    if optset is not None:
+        request_factory = app_request_factory(optset, user_agent)
     wc = WebClient(http_client, redirect_tracker_factory=functools.partial(RedirectTracker, max_redirects=maxred),
                    cookie_jar=wrapper, request_factory=request_factory)
     return wc, jar
@@ -280,7 +302,11 @@ def run_script(sc, start_text=None, referer_text=None):
             net.listen(ip, p, server)
     net.listen(PROXY[0], PROXY[1], server)
     proxy = bool(sc.get('proxy'))
-    wc, jar = build_client(net, sc.get('maxred', 3), proxy)
+    # which request factory: the plain one, or one the application builds from options (chosen from the script itself,
+    # so that a scenario always runs the same way)
+    import zlib as _z
+    pick = _z.crc32(json.dumps(sc, sort_keys=True, default=str).encode()) % (len(OPTSETS) + 2)
+    wc, jar = build_client(net, sc.get('maxred', 3), proxy, optset=(pick if pick < len(OPTSETS) else None))
     for h in sc.get('jar0', []):
         seed_cookie(jar, h)
     start = start_text or url_text(sc['start'])
